@@ -17,6 +17,9 @@ VERIF = runner.VERIF
 def digests(prop, seed, start, stop):
     from .plans import PLANS
     plan = PLANS[prop]
+    if getattr(plan, "uses_pristine", False):
+        from . import pristine
+        pristine.init_zygote()
     out = []
     for idx in range(start, stop):
         rng = random.Random(runner.mix(seed, prop, idx))
